@@ -61,6 +61,27 @@ def skel(parts):
     return "/".join(out)
 
 
+def with_sentinel(k):
+    """the skeleton with a sentinel letter appended to its final text: spec_trim removes a FINAL line break of the
+    template; the output under keep_trailing_newline is spec_trim of the sentinel skeleton minus the sentinel"""
+    segs = k.split("/")
+    f = segs[-1].split(":")
+    if f[0] == "t":
+        f[1] = "90" if f[1] == "e" else f[1] + ".90"
+        segs[-1] = ":".join(f)
+    else:
+        segs.append("t:90")
+    return "/".join(segs)
+
+
+def finish_spec(c, spec):
+    """keep_trailing_newline (sentinel removed) and newline_sequence applied to an extracted spec_trim output"""
+    if c.keep:
+        assert spec.endswith("Z"), spec
+        spec = spec[:-1]
+    return spec.replace("\n", c.nl)
+
+
 def norm_skel(k):
     """the skeleton with the line breaks of its texts / raw bodies unified to LF"""
     out = []
@@ -231,6 +252,17 @@ def run(ctx):
         sts = settings if name == "default" and k.count("/") <= 2 else [ctx.rng.choice(settings), (True, True)]
         for t, l in sts:
             cases.append((L.Cfg(name, t, l), k, k))
+    # OPTION PAIRS: keep_trailing_newline and newline_sequence together with trim_blocks / lstrip_blocks; tags followed
+    # by blank lines, by nothing (tag ends the template) and by a single final line break
+    afters = ["", "\n", "\n\n", "\n \n", " \n", "\nb", "\n\nb\n", "b\n"]
+    befores = ["", "a\n", "  ", "a\n  "]
+    pair_tags = [g for g in tags1 if g[0] in "bc"] + [g for g in tags1 if g.startswith("r:") and g.endswith(":e")][:12] + ["v:nn", "v:nm"]
+    pair_sks = [skel([b_, g, a_]) for b_ in befores for g in pair_tags for a_ in afters]
+    for k in ctx.rng.sample(pair_sks, min(len(pair_sks), ctx.size(1500, len(pair_sks)))):
+        for _ in range(2):
+            t_, l_ = ctx.rng.choice(settings)
+            cases.append((L.Cfg("default", t_, l_, nl=ctx.rng.choice(["\n", "\r\n", "\r"]), keep=ctx.rng.random() < 0.7), k, k))
+            ctx.count("option_pairs")
     # line breaks in all three forms: the template is written with CR / CRLF / LF runs, the documented
     # rules are applied to the skeleton with its line breaks unified (each text normalised on its own:
     # a CR ending one text and a LF starting the next are separated by a tag and stay two breaks)
@@ -268,6 +300,7 @@ def run(ctx):
         for t, l in sts:
             cases.append((L.Cfg(ctx.rng.choice(["default", "default", "asp"]) if len(parts) > 3 else "default", t, l), k_raw, k_norm))
             ctx.count("cr_forms")
+    cases = [(c, k, with_sentinel(kn) if c.keep else kn) for c, k, kn in cases]
     klines = ctx.driver("lex", ["K %s %s" % (c.enc(), k) for c, k, _ in cases])
     need = [i for i, (c, k, kn) in enumerate(cases) if kn != k]
     nl_out = ctx.driver("lex", ["K %s %s" % (cases[i][0].enc(), cases[i][2]) for i in need]) if need else []
@@ -277,7 +310,7 @@ def run(ctx):
     srcs = []
     for (c, k, kn), kl, nl_ in zip(cases, klines, nlines):
         src = L.dec_str(kl.split(" ")[0])
-        _, spec_v, spec_0 = (L.dec_str(x) for x in nl_.split(" "))
+        _, spec_v, spec_0 = (finish_spec(c, L.dec_str(x)) for x in nl_.split(" "))
         srcs.append((src, spec_v, spec_0))
     cases = [(c, k) for c, k, _ in cases]
     rlines = ctx.driver("lex", ["R %s %s" % (c.enc(), L.enc_str(s[0])) for (c, k), s in zip(cases, srcs)])
@@ -342,8 +375,9 @@ def replay(ctx, data):
             ctx.reject(case, "'+' accepted: %r" % got, data.get("signature"))
         return
     src = L.dec_str(ctx.driver("lex", ["K %s %s" % (c.enc(), case["skeleton"])])[0].split(" ")[0])
-    kl = ctx.driver("lex", ["K %s %s" % (c.enc(), norm_skel(case["skeleton"]))])[0]
-    _, spec_v, spec_0 = (L.dec_str(x) for x in kl.split(" "))
+    ks = norm_skel(case["skeleton"])
+    kl = ctx.driver("lex", ["K %s %s" % (c.enc(), with_sentinel(ks) if c.keep else ks)])[0]
+    _, spec_v, spec_0 = (finish_spec(c, L.dec_str(x)) for x in kl.split(" "))
     print("skeleton :", case["skeleton"], case["cfg"])
     print("template :", repr(src))
     print("spec_trim:", repr(spec_v))
